@@ -1,5 +1,816 @@
-"""Node-kind must-analysis for the simplification passes (placeholder until the flow analysis is armed)."""
+"""Node-kind must-analysis for the simplification passes (C01-R2).
+
+For every read of a class-specific attribute of an expression (P.op, P.args, P.arg, P.start, P.stop, P.cond,
+P.src1, P.src2, P.ptr, int(P), P.args[k], `a, b = P.args`) the analysis decides whether the Expr class of P
+(and, for indexing, the arity of P) is established on every path to the read.
+
+Abstract state (a frozenset of facts, joined by "what holds on both sides"):
+  ('A', name, path)          local `name` aliases the access path `path`
+  ('K', path, classes)       the node at `path` is an instance of one of `classes`
+  ('O', path, ops)           its operator is one of `ops` ('pfx*' entries denote prefixes)
+  ('L', path, lo, hi)        len(path.args) is within [lo, hi] (hi None = unbounded)
+  ('E', path, classes)       every element of the sequence at `path` is an instance of one of `classes`
+Access paths are rooted at a parameter or local: expr, expr.args[0], expr.cond.args[1], arg, args[-1] ...
+"""
+import ast
+
+from .astutil import norm, dotted, callee_attr, str_elts
+from .cfg import CFG
+from .exprmodel import KINDS, IS_PRED
+
+ALL = frozenset(KINDS)
+STRUCT = set(["args", "cond", "src1", "src2", "arg", "ptr", "src", "dst"])
+NEED = {"op": frozenset(["ExprOp"]), "args": frozenset(["ExprOp", "ExprCompose"]), "arg": frozenset(["ExprSlice", "ExprInt", "ExprMem"]),
+        "start": frozenset(["ExprSlice"]), "stop": frozenset(["ExprSlice"]), "cond": frozenset(["ExprCond"]), "src1": frozenset(["ExprCond"]),
+        "src2": frozenset(["ExprCond"]), "ptr": frozenset(["ExprMem"]), "src": frozenset(["ExprAssign"]), "dst": frozenset(["ExprAssign"]),
+        "name": frozenset(["ExprId"]), "loc_key": frozenset(["ExprLoc"]), "is_commutative": frozenset(["ExprOp"]), "is_associative": frozenset(["ExprOp"])}
+CTOR = dict((k, frozenset([k])) for k in KINDS)
+# methods of Expr returning a given class whatever the receiver
+RET_KIND = {"msb": frozenset(["ExprSlice"]), "zeroExtend": None, "signExtend": None, "copy": None}
+BINARY_OPS = set(["<<", ">>", "a>>", "<<<", ">>>", "udiv", "umod", "sdiv", "smod", "==", "<u", "<s", "<=u", "<=s", "/", "%", "**", "segm",
+                  "bcdadd", "bcdadd_cf"])
+UNARY_OPS = set(["parity", "cnttrailzeros", "cntleadzeros", "pfx:zeroExt", "pfx:signExt", "pfx:zeroExt_", "pfx:signExt_"])
+NARY_OPS = set(["+", "*", "^", "&", "|"])
+
+
+class St(object):
+    """Immutable abstract state."""
+    __slots__ = ("alias", "kind", "ops", "lens", "elem", "_h")
+
+    def __init__(self, alias=None, kind=None, ops=None, lens=None, elem=None):
+        self.alias = alias or {}
+        self.kind = kind or {}
+        self.ops = ops or {}
+        self.lens = lens or {}
+        self.elem = elem or {}
+        self._h = None
+
+    def copy(self):
+        return St(dict(self.alias), dict(self.kind), dict(self.ops), dict(self.lens), dict(self.elem))
+
+    def key(self):
+        if self._h is None:
+            self._h = (tuple(sorted(self.alias.items())), tuple(sorted((k, tuple(sorted(v))) for k, v in self.kind.items())),
+                       tuple(sorted((k, tuple(sorted(v))) for k, v in self.ops.items())), tuple(sorted(self.lens.items(), key=lambda x: x[0])),
+                       tuple(sorted((k, tuple(sorted(v))) for k, v in self.elem.items())))
+        return self._h
+
+    def __eq__(self, o):
+        return isinstance(o, St) and self.key() == o.key()
+
+    def __ne__(self, o):
+        return not self.__eq__(o)
+
+    def __hash__(self):
+        return hash(self.key())
+
+
+def join(a, b):
+    if a is None:
+        return b
+    if b is None:
+        return a
+    out = St()
+    out.alias = dict((k, v) for k, v in a.alias.items() if b.alias.get(k) == v)
+    for k, v in a.kind.items():
+        if k in b.kind:
+            out.kind[k] = v | b.kind[k]
+    for k, v in a.ops.items():
+        if k in b.ops:
+            out.ops[k] = v | b.ops[k]
+    for k, (lo, hi) in a.lens.items():
+        if k in b.lens:
+            lo2, hi2 = b.lens[k]
+            out.lens[k] = (min(lo, lo2), None if (hi is None or hi2 is None) else max(hi, hi2))
+    for k, v in a.elem.items():
+        if k in b.elem:
+            out.elem[k] = v | b.elem[k]
+    return out
+
+
+class Analysis(object):
+    def __init__(self, repo, mod, fn, kcls, helpers=None):
+        self.repo = repo
+        self.mod = mod
+        self.fn = fn
+        self.kcls = kcls
+        self.params = [a.arg for a in fn.args.args]
+        self.simp = self.params[0] if self.params else None
+        self.exprp = self.params[1] if len(self.params) > 1 else None
+        self.locals = set(self.params)
+        for n in ast.walk(fn):
+            if isinstance(n, ast.Name) and isinstance(n.ctx, ast.Store):
+                self.locals.add(n.id)
+        # locals that only ever hold plain Python values (flow-insensitive fix point)
+        defs = {}
+        for n in ast.walk(fn):
+            if isinstance(n, ast.Assign):
+                for t in n.targets:
+                    if isinstance(t, ast.Name):
+                        defs.setdefault(t.id, []).append(n.value)
+                    else:
+                        for x in ast.walk(t):
+                            if isinstance(x, ast.Name) and isinstance(x.ctx, ast.Store):
+                                defs.setdefault(x.id, []).append(None)
+            elif isinstance(n, (ast.For, ast.comprehension)):
+                for x in ast.walk(n.target):
+                    if isinstance(x, ast.Name):
+                        defs.setdefault(x.id, []).append(None)
+            elif isinstance(n, ast.AugAssign) and isinstance(n.target, ast.Name):
+                defs.setdefault(n.target.id, []).append(n.value)
+        self.py_locals = set()
+        changed = True
+        while changed:
+            changed = False
+            for name, vs in defs.items():
+                if name in self.py_locals or name in self.params:
+                    continue
+                tmp = St()
+                for q in self.py_locals:
+                    tmp.kind[q] = frozenset(["py"])
+                if all(v is not None and self.is_py(v, tmp) for v in vs):
+                    self.py_locals.add(name)
+                    changed = True
+        self.out = []          # (key, ok, where, detail)
+        self.seen = set()
+        self.consts = helpers or {}
+
+    # ---------------------------------------------------------------- paths
+    def seq_path(self, e, st):
+        """Path of the sequence iterated by `e` (copies, slices, reversed()... keep the element facts)."""
+        while True:
+            if isinstance(e, ast.Call) and callee_attr(e) in ("list", "reversed", "sorted", "tuple", "set", "frozenset") and e.args:
+                e = e.args[0]
+            elif isinstance(e, ast.Subscript) and isinstance(e.slice, ast.Slice):
+                e = e.value
+            else:
+                break
+        return self.path(e, st)
+
+    def path(self, e, st):
+        if isinstance(e, ast.Name):
+            if e.id in st.alias:
+                return st.alias[e.id]
+            if e.id in self.locals and e.id != self.simp:
+                return e.id
+            return None
+        if isinstance(e, ast.Attribute) and e.attr == "op":
+            p = self.path(e.value, st)
+            return None if p is None else p + ".op"
+        if isinstance(e, ast.Attribute) and e.attr in STRUCT:
+            p = self.path(e.value, st)
+            return None if p is None else p + "." + e.attr
+        if isinstance(e, ast.Subscript) and not isinstance(e.slice, ast.Slice):
+            p = self.path(e.value, st)
+            if p is None:
+                return None
+            idx = e.slice
+            if isinstance(idx, ast.Constant) and isinstance(idx.value, int):
+                return "%s[%d]" % (p, idx.value)
+            if isinstance(idx, ast.UnaryOp) and isinstance(idx.op, ast.USub) and isinstance(idx.operand, ast.Constant):
+                return "%s[-%d]" % (p, idx.operand.value)
+            return "%s[%s]" % (p, norm(idx))
+        return None
+
+    def is_py(self, v, st):
+        """Is `v` a plain Python value (number / string / bool), not an expression node?"""
+        PY = frozenset(["py"])
+        if isinstance(v, ast.Constant):
+            return True
+        if isinstance(v, ast.Name):
+            p = self.path(v, st)
+            return p is not None and st.kind.get(p) == PY
+        if isinstance(v, ast.Attribute) and v.attr in ("size", "op"):
+            return True
+        if isinstance(v, ast.Call):
+            ca = callee_attr(v)
+            if (isinstance(v.func, ast.Name) and ca in ("int", "len", "pow", "abs", "min", "max", "parity", "bool", "str")) or \
+                    (isinstance(v.func, ast.Subscript) and dotted(v.func.value) in ("mod_size2uint", "mod_size2int")):
+                return True
+            return False
+        if isinstance(v, ast.BinOp):
+            return self.is_py(v.left, st) and self.is_py(v.right, st)
+        if isinstance(v, ast.UnaryOp):
+            return self.is_py(v.operand, st)
+        if isinstance(v, ast.Compare):
+            return True
+        if isinstance(v, ast.IfExp):
+            return self.is_py(v.body, st) and self.is_py(v.orelse, st)
+        return False
+
+    # ---------------------------------------------------------------- kills
+    def kill_root(self, st, root):
+        """Forget everything about paths rooted at local `root` (it is being rebound / mutated)."""
+        def rooted(p):
+            return p == root or p.startswith(root + ".") or p.startswith(root + "[")
+        # a local that aliases a path into the dying root keeps what is known about it, under its own name
+        for n, p in list(st.alias.items()):
+            if n != root and rooted(p) and not n.startswith("__"):
+                for d in (st.kind, st.ops, st.lens, st.elem):
+                    for q in [q for q in d if q == p or q.startswith(p + ".") or q.startswith(p + "[")]:
+                        d[n + q[len(p):]] = d[q]
+        st.alias = dict((k, v) for k, v in st.alias.items() if k != root and not rooted(v))
+        for d in (st.kind, st.ops, st.lens, st.elem):
+            for k in [k for k in d if rooted(k)]:
+                del d[k]
+
+    # ---------------------------------------------------------------- refinement by a test
+    def refine(self, st, test, pol):
+        """State after `test` evaluated with truth value `pol` (None if that outcome is impossible to describe -> st)."""
+        if isinstance(test, ast.BoolOp):
+            conj = isinstance(test.op, ast.And)
+            if conj == pol:
+                s = st
+                for v in test.values:
+                    s = self.refine(s, v, pol)
+                return s
+            # the other outcome: some operand has the other value, the previous ones the first
+            res = None
+            s = st
+            for v in test.values:
+                res = join(res, self.refine(s, v, pol))
+                s = self.refine(s, v, not pol)
+            return res if res is not None else st
+        if isinstance(test, ast.UnaryOp) and isinstance(test.op, ast.Not):
+            return self.refine(st, test.operand, not pol)
+        s = st.copy()
+        if isinstance(test, ast.Call):
+            f = test.func
+            # P.is_X(...)
+            if isinstance(f, ast.Attribute) and f.attr in IS_PRED:
+                p = self.path(f.value, st)
+                if p is not None:
+                    k = IS_PRED[f.attr]
+                    if pol:
+                        s.kind[p] = frozenset([k])
+                        if k == "ExprOp" and test.args and isinstance(test.args[0], ast.Constant):
+                            s.ops[p] = frozenset([test.args[0].value])
+                        elif k == "ExprOp" and test.args and isinstance(test.args[0], ast.Name) and test.args[0].id in self.consts:
+                            s.ops[p] = frozenset([self.consts[test.args[0].id]])
+                        elif k == "ExprOp" and test.args:
+                            ap = self.path(test.args[0], st)
+                            if ap is not None and ap.endswith(".op") and ap[:-3] in st.ops:
+                                s.ops[p] = st.ops[ap[:-3]]
+                            elif ap is not None and ap in st.ops:
+                                s.ops[p] = st.ops[ap]
+                    elif not test.args:
+                        if p in s.kind:
+                            s.kind[p] = s.kind[p] - frozenset([k])
+                return s
+            if isinstance(f, ast.Name) and f.id == "isinstance" and len(test.args) == 2:
+                p = self.path(test.args[0], st)
+                cl = test.args[1].elts if isinstance(test.args[1], ast.Tuple) else [test.args[1]]
+                names = frozenset((c.attr if isinstance(c, ast.Attribute) else getattr(c, "id", "?")) for c in cl)
+                if p is not None and names <= ALL:
+                    if pol:
+                        s.kind[p] = names
+                    elif p in s.kind:
+                        s.kind[p] = s.kind[p] - names
+                return s
+            # P.op.startswith("pfx")
+            if isinstance(f, ast.Attribute) and f.attr == "startswith" and isinstance(f.value, ast.Attribute) and f.value.attr == "op" and test.args \
+                    and isinstance(test.args[0], ast.Constant):
+                p = self.path(f.value.value, st)
+                if p is not None and pol:
+                    s.ops[p] = frozenset(["pfx:" + test.args[0].value])
+                return s
+            # all(<cond> for x in L)
+            if isinstance(f, ast.Name) and f.id == "all" and test.args and isinstance(test.args[0], (ast.GeneratorExp, ast.ListComp)) and pol:
+                g = test.args[0]
+                if len(g.generators) == 1 and isinstance(g.generators[0].target, ast.Name) and not g.generators[0].ifs:
+                    lp = self.path(g.generators[0].iter, st)
+                    x = g.generators[0].target.id
+                    if lp is not None:
+                        tmp = St()
+                        tmp.alias[x] = "__elt__"
+                        r = self.refine(tmp, g.elt, True)
+                        if "__elt__" in r.kind:
+                            s.elem[lp] = r.kind["__elt__"]
+                return s
+            # helper: test_cc_eq_args(P, "OP0", "OP1", ...)
+            if isinstance(f, ast.Name) and f.id == "test_cc_eq_args" and test.args and pol:
+                p = self.path(test.args[0], st)
+                sons = test.args[1:]
+                if p is not None and all(isinstance(x, ast.Constant) for x in sons):
+                    s.kind[p] = frozenset(["ExprOp"])
+                    s.lens[p] = (len(sons), len(sons))
+                    for i, x in enumerate(sons):
+                        s.kind["%s.args[%d]" % (p, i)] = frozenset(["ExprOp"])
+                        s.ops["%s.args[%d]" % (p, i)] = frozenset([x.value])
+                return s
+            return s
+        if isinstance(test, ast.Compare) and len(test.ops) == 1:
+            l, op, r = test.left, test.ops[0], test.comparators[0]
+            # P.op == "x" / != / in [...] / not in [...]   (or a local holding P.op)
+            lp_ = self.path(l, st) if isinstance(l, (ast.Attribute, ast.Name)) else None
+            if lp_ is not None and (lp_.endswith(".op") or (isinstance(l, ast.Name) and "." not in lp_ and "[" not in lp_)):
+                p = lp_[:-3] if lp_.endswith(".op") else lp_
+                if p is not None:
+                    vals = None
+                    if isinstance(r, ast.Constant) and isinstance(r.value, str):
+                        vals = [r.value]
+                    elif isinstance(r, ast.Name) and r.id in self.consts:
+                        vals = [self.consts[r.id]]
+                    elif isinstance(r, (ast.List, ast.Tuple, ast.Set)):
+                        vals = []
+                        for e in r.elts:
+                            if isinstance(e, ast.Constant):
+                                vals.append(e.value)
+                            elif isinstance(e, ast.Name) and e.id in self.consts:
+                                vals.append(self.consts[e.id])
+                            else:
+                                vals = None
+                                break
+                    if vals is not None:
+                        pos = (isinstance(op, (ast.Eq, ast.In)) and pol) or (isinstance(op, (ast.NotEq, ast.NotIn)) and not pol)
+                        if pos:
+                            s.ops[p] = frozenset(vals)
+                return s
+            # len(P.args) cmp n
+            for a, b, flip in ((l, r, False), (r, l, True)):
+                if isinstance(a, ast.Call) and callee_attr(a) == "len" and a.args and isinstance(b, ast.Constant) and isinstance(b.value, int):
+                    arg = a.args[0]
+                    p = self.path(arg.value, st) if isinstance(arg, ast.Attribute) and arg.attr == "args" else self.path(arg, st)
+                    if p is None:
+                        return s
+                    n = b.value
+                    o = type(op)
+                    if flip:
+                        o = {ast.Lt: ast.Gt, ast.Gt: ast.Lt, ast.LtE: ast.GtE, ast.GtE: ast.LtE}.get(o, o)
+                    if not pol:
+                        o = {ast.Eq: ast.NotEq, ast.NotEq: ast.Eq, ast.Lt: ast.GtE, ast.GtE: ast.Lt, ast.Gt: ast.LtE, ast.LtE: ast.Gt}.get(o, None)
+                    lo, hi = s.lens.get(p, (0, None))
+                    if o is ast.Eq:
+                        lo, hi = n, n
+                    elif o is ast.GtE:
+                        lo = max(lo, n)
+                    elif o is ast.Gt:
+                        lo = max(lo, n + 1)
+                    elif o is ast.LtE:
+                        hi = n if hi is None else min(hi, n)
+                    elif o is ast.Lt:
+                        hi = n - 1 if hi is None else min(hi, n - 1)
+                    s.lens[p] = (lo, hi)
+                    return s
+        return s
+
+    # ---------------------------------------------------------------- reads
+    def kind_of(self, p, st):
+        if p in st.kind:
+            return st.kind[p]
+        # element of a sequence with a universal fact: P.args[k] / P[k]
+        if p.endswith("]"):
+            base = p[:p.rindex("[")]
+            if base in st.elem:
+                return st.elem[base]
+        return None
+
+    def arity_of(self, p, st):
+        lo, hi = st.lens.get(p, (0, None))
+        ops = st.ops.get(p)
+        if ops:
+            los, his = [], []
+            for o in ops:
+                key = o
+                if o.startswith("pfx:"):
+                    a = (1, 1) if o in UNARY_OPS or o[4:].startswith(("zeroExt", "signExt")) else None
+                elif o in BINARY_OPS:
+                    a = (2, 2)
+                elif o in UNARY_OPS:
+                    a = (1, 1)
+                elif o in NARY_OPS:
+                    a = (2, None)
+                elif o == "-":
+                    a = (1, 2)
+                elif o in self.flag_arity():
+                    n = self.flag_arity()[o]
+                    a = (n, n)
+                else:
+                    a = None
+                if a is None:
+                    los, his = None, None
+                    break
+                los.append(a[0])
+                his.append(a[1])
+            if los:
+                lo = max(lo, min(los))
+                h2 = None if any(h is None for h in his) else max(his)
+                hi = h2 if hi is None else (hi if h2 is None else min(hi, h2))
+        return lo, hi
+
+    _FLAGS = None
+
+    def flag_arity(self):
+        if Analysis._FLAGS is None:
+            out = {}
+            try:
+                m = self.repo.mod("miasm/expression/simplifications_explicit.py")
+                f = m.func("simp_flags")
+                for n in ast.walk(f):
+                    if isinstance(n, ast.If) and isinstance(n.test, ast.Call) and dotted(n.test.func) == "expr.is_op" and n.test.args \
+                            and isinstance(n.test.args[0], ast.Constant):
+                        ar = 0
+                        for x in ast.walk(ast.Module(body=n.body, type_ignores=[])):
+                            if isinstance(x, ast.Assign) and isinstance(x.targets[0], ast.Tuple) and norm(x.value) == "args":
+                                ar = max(ar, len(x.targets[0].elts))
+                            if isinstance(x, ast.Subscript) and norm(x.value) == "args" and isinstance(x.slice, ast.Constant):
+                                ar = max(ar, x.slice.value + 1)
+                        if ar:
+                            out[n.test.args[0].value] = ar
+            except Exception:
+                pass
+            # FLAG_SIGN_ADD is produced by no lifter and has no branch in simp_flags; by symmetry with FLAG_SIGN_SUB it is binary
+            out.setdefault("FLAG_SIGN_ADD", 2)
+            Analysis._FLAGS = out
+        return Analysis._FLAGS
+
+    def record(self, node, what, ok, detail):
+        key = "%s@%s" % (what, norm(node)[:40])
+        self.out.append((key, ok, self.mod.where(node), detail))
+
+    def visit(self, e, st):
+        """Walk expression `e` in evaluation order, recording obligations for class-specific reads; returns nothing."""
+        if e is None:
+            return
+        if isinstance(e, ast.BoolOp):
+            s = st
+            for v in e.values:
+                self.visit(v, s)
+                s = self.refine(s, v, isinstance(e.op, ast.And))
+            return
+        if isinstance(e, ast.IfExp):
+            self.visit(e.test, st)
+            self.visit(e.body, self.refine(st, e.test, True))
+            self.visit(e.orelse, self.refine(st, e.test, False))
+            return
+        if isinstance(e, (ast.ListComp, ast.GeneratorExp, ast.SetComp, ast.DictComp)):
+            s = st.copy()
+            for g in e.generators:
+                self.visit(g.iter, s)
+                lp = self.seq_path(g.iter, s)
+                for t in ([g.target] if isinstance(g.target, ast.Name) else (g.target.elts if isinstance(g.target, ast.Tuple) else [])):
+                    if isinstance(t, ast.Name):
+                        self.kill_root(s, t.id)
+                if isinstance(g.target, ast.Name) and lp is not None:
+                    s.alias[g.target.id] = lp + "[*]"
+                    if lp in s.elem:
+                        s.kind[lp + "[*]"] = s.elem[lp]
+                for c in g.ifs:
+                    self.visit(c, s)
+                    s = self.refine(s, c, True)
+            if isinstance(e, ast.DictComp):
+                self.visit(e.key, s)
+                self.visit(e.value, s)
+            else:
+                self.visit(e.elt, s)
+            return
+        if isinstance(e, ast.Lambda):
+            return
+        if isinstance(e, ast.Call):
+            if isinstance(e.func, ast.Name) and e.func.id == "int" and len(e.args) == 1:
+                p = self.path(e.args[0], st)
+                if p is not None:
+                    k = self.kind_of(p, st)
+                    if p in self.py_locals:
+                        return
+                    ok = k is not None and (k <= frozenset(["ExprInt"]) or k == frozenset(["py"]))
+                    self.record(e, "int(%s)" % p, ok, "int() is applied to `%s`, which is %s here: only an ExprInt converts to a Python integer (TypeError otherwise)"
+                                % (p, "not known to be a constant" if k is None else "possibly one of %s" % sorted(k)))
+            self.visit(e.func, st)
+            for a in e.args:
+                self.visit(a.value if isinstance(a, ast.Starred) else a, st)
+            for kw in e.keywords:
+                self.visit(kw.value, st)
+            return
+        if isinstance(e, ast.Attribute):
+            self.visit(e.value, st)
+            if e.attr in NEED and isinstance(e.ctx, ast.Load):
+                p = self.path(e.value, st)
+                if p is not None:
+                    k = self.kind_of(p, st)
+                    need = NEED[e.attr]
+                    ok = k is not None and k <= need
+                    self.record(e, "%s.%s" % (p, e.attr), ok,
+                                "`.%s` is read on `%s`, which is %s on some path to this point; only %s has that attribute (AttributeError otherwise)"
+                                % (e.attr, p, "of unknown class" if k is None else "possibly one of %s" % sorted(k), "/".join(sorted(need))))
+            return
+        if isinstance(e, ast.Subscript):
+            self.visit(e.value, st)
+            if not isinstance(e.slice, ast.Slice):
+                self.visit(e.slice, st)
+                # P.args[k] needs arity > k on an immutable expression
+                if isinstance(e.value, ast.Attribute) and e.value.attr == "args" and isinstance(e.ctx, ast.Load):
+                    p = self.path(e.value.value, st)
+                    idx = e.slice
+                    k = None
+                    if isinstance(idx, ast.Constant) and isinstance(idx.value, int):
+                        k = idx.value
+                    elif isinstance(idx, ast.UnaryOp) and isinstance(idx.op, ast.USub) and isinstance(idx.operand, ast.Constant):
+                        k = -idx.operand.value
+                    if p is not None and k is not None:
+                        lo, hi = self.arity_of(p, st)
+                        need = k + 1 if k >= 0 else -k
+                        ok = lo >= need
+                        self.record(e, "%s.args[%d]" % (p, k), ok,
+                                    "`%s.args[%d]` is read where the node is only known to have at least %d argument(s) (IndexError otherwise)" % (p, k, lo))
+            else:
+                for x in (e.slice.lower, e.slice.upper, e.slice.step):
+                    self.visit(x, st)
+            return
+        for c in ast.iter_child_nodes(e):
+            if isinstance(c, ast.expr):
+                self.visit(c, st)
+
+    # ---------------------------------------------------------------- statements
+    def assign(self, st, targets, value):
+        """Effect of `targets = value` (value already visited with the old state)."""
+        s = st.copy()
+        # evaluate the right-hand side with the OLD environment
+        def rhs_info(v):
+            p = self.path(v, st)
+            k = None
+            ops = None
+            if p is not None:
+                return p, self.kind_of(p, st), st.ops.get(p), st.lens.get(p)
+            if isinstance(v, ast.Call) and isinstance(v.func, ast.Attribute) and v.func.attr == "pop" and not v.args:
+                lp = self.seq_path(v.func.value, st)
+                if lp is not None:
+                    kk = st.kind.get(lp + "[-1]")
+                    if kk is None:
+                        kk = st.elem.get(lp)
+                    return None, kk, st.ops.get(lp + "[-1]"), st.lens.get(lp + "[-1]")
+            if isinstance(v, ast.Call):
+                ca = callee_attr(v)
+                if isinstance(v.func, ast.Name) and ca == "int" or (isinstance(v.func, ast.Subscript) and dotted(v.func.value) in ("mod_size2uint", "mod_size2int")) \
+                        or ca in ("len", "parity", "pow", "abs", "min", "max"):
+                    return None, frozenset(["py"]), None, None
+                if ca in CTOR:
+                    k = CTOR[ca]
+                    if ca == "ExprOp" and v.args and isinstance(v.args[0], ast.Constant):
+                        ops = frozenset([v.args[0].value])
+                    elif ca == "ExprOp" and v.args and isinstance(v.args[0], ast.Name) and v.args[0].id in self.consts:
+                        ops = frozenset([self.consts[v.args[0].id]])
+                elif ca == "msb":
+                    k = frozenset(["ExprSlice"])
+            if self.is_py(v, st):
+                return None, frozenset(["py"]), None, None
+            if isinstance(v, ast.UnaryOp) and isinstance(v.op, ast.USub) and self.path(v.operand, st) is not None:
+                k = frozenset(["ExprOp"])
+                ops = frozenset(["-"])
+            if isinstance(v, ast.BinOp) and (self.path(v.left, st) is not None or self.path(v.right, st) is not None):
+                if isinstance(v.op, (ast.Add, ast.Sub, ast.Mult, ast.BitAnd, ast.BitOr, ast.BitXor, ast.LShift, ast.RShift, ast.Mod, ast.Div, ast.FloorDiv, ast.Pow)):
+                    k = frozenset(["ExprOp"])
+            return None, k, ops, None
+        infos = []
+        if len(targets) == 1 and isinstance(targets[0], (ast.Tuple, ast.List)):
+            tg = targets[0].elts
+            if isinstance(value, (ast.Tuple, ast.List)) and len(value.elts) == len(tg):
+                for t, v in zip(tg, value.elts):
+                    infos.append((t, rhs_info(v)))
+            else:
+                p = self.path(value, st)
+                # a, b = P.args   (arity must equal the number of targets)
+                if p is not None and p.endswith(".args"):
+                    base = p[:-5]
+                    lo, hi = self.arity_of(base, st)
+                    n = len(tg)
+                    ok = lo == n and hi == n
+                    self.record(targets[0], "unpack %s" % p, ok,
+                                "`%s = %s` needs exactly %d arguments; the node is known to have between %s and %s" % (norm(targets[0]), p, n, lo, hi if hi is not None else "any number"))
+                    for i, t in enumerate(tg):
+                        infos.append((t, ("%s[%d]" % (p, i), self.kind_of("%s[%d]" % (p, i), st), st.ops.get("%s[%d]" % (p, i)), st.lens.get("%s[%d]" % (p, i)))))
+                else:
+                    for t in tg:
+                        infos.append((t, (None, None, None, None)))
+        else:
+            for t in targets:
+                infos.append((t, rhs_info(value)))
+        if isinstance(value, ast.Call) and isinstance(value.func, ast.Attribute) and value.func.attr == "pop" and not value.args \
+                and isinstance(value.func.value, ast.Name):
+            L = value.func.value.id
+            for dn in ("kind", "ops", "lens"):
+                d = getattr(s, dn)
+                old = dict((q, v) for q, v in d.items() if q.startswith(L + "[-"))
+                for q in old:
+                    del d[q]
+                for q, v in old.items():
+                    idx = int(q[len(L) + 2:q.index("]", len(L))])
+                    rest = q[q.index("]", len(L)) + 1:]
+                    if idx >= 2:
+                        d["%s[-%d]%s" % (L, idx - 1, rest)] = v
+        for t, (p, k, ops, ln) in infos:
+            if isinstance(t, ast.Name):
+                self.kill_root(s, t.id)
+                if len(infos) == 1 and ((isinstance(value, (ast.List, ast.Set, ast.Tuple)) and not value.elts) or
+                                        (isinstance(value, ast.Dict) and not value.keys) or
+                                        (isinstance(value, ast.Call) and callee_attr(value) in ("set", "list", "dict") and not value.args)):
+                    s.elem[t.id] = frozenset()
+                    s.elem[t.id + "{}"] = frozenset()
+                    continue
+                if p is not None and not (p == t.id or p.startswith(t.id + ".") or p.startswith(t.id + "[")):
+                    s.alias[t.id] = p
+                else:
+                    # rebinding to a value derived from itself (args = args[0].args): what was known below that path
+                    # is now known below the name
+                    if p is not None:
+                        for dn in ("kind", "ops", "lens", "elem"):
+                            src = getattr(st, dn)
+                            dst = getattr(s, dn)
+                            for q in [q for q in src if q == p or q.startswith(p + ".") or q.startswith(p + "[")]:
+                                dst[t.id + q[len(p):]] = src[q]
+                    if k is not None:
+                        s.kind[t.id] = k
+                    if ops is not None:
+                        s.ops[t.id] = ops
+                    if ln is not None:
+                        s.lens[t.id] = ln
+            elif isinstance(t, ast.Subscript):
+                base = t.value
+                while isinstance(base, (ast.Subscript, ast.Attribute)):
+                    base = base.value
+                if isinstance(base, ast.Name):
+                    if isinstance(t.value, ast.Name) and isinstance(value, (ast.List,)) and not value.elts:
+                        continue      # D[key] = [] : a new empty list among D's values
+                    # element store into a local container: forget the container's element facts
+                    keep = s.elem.get(base.id + "{}")
+                    self.kill_root(s, base.id)
+            elif isinstance(t, ast.Attribute):
+                pass
+        return s
+
+    def flow(self, nd, st):
+        a = nd.ast
+        if st is None or a is None:
+            return st
+        if nd.kind == "test":
+            self.check_node(nd, st)
+            return st
+        if nd.kind == "for":
+            self.check_expr(nd, a.iter, st)
+            s = st.copy()
+            it = a.iter
+            dict_items = False
+            if isinstance(it, ast.Call) and callee_attr(it) == "enumerate" and it.args:
+                it = it.args[0]
+            if isinstance(it, ast.Call) and callee_attr(it) in ("viewitems", "items", "iteritems") :
+                dict_items = True
+                it = it.args[0] if it.args else it.func.value
+            lp = self.seq_path(it, st)
+            tg = a.target
+            names = [tg] if isinstance(tg, ast.Name) else [x for x in ast.walk(tg) if isinstance(x, ast.Name)]
+            for t in names:
+                self.kill_root(s, t.id)
+            elt = tg
+            if isinstance(a.iter, ast.Call) and callee_attr(a.iter) == "enumerate" and isinstance(tg, ast.Tuple) and len(tg.elts) == 2:
+                elt = tg.elts[1]
+            if dict_items and isinstance(tg, ast.Tuple) and len(tg.elts) == 2 and lp is not None:
+                # for k, v in viewitems(D): v is one of D's values (lists filled by D[k].append(x))
+                elt = tg.elts[1]
+                lp = lp + "{}"
+                if isinstance(elt, ast.Name):
+                    s.alias[elt.id] = lp
+                    return s
+            if isinstance(elt, ast.Name) and lp is not None:
+                s.alias[elt.id] = lp + "[*]"
+                if lp in st.elem:
+                    s.kind[lp + "[*]"] = st.elem[lp]
+                else:
+                    s.kind.pop(lp + "[*]", None)
+            return s
+        if nd.kind in ("with", "except", "loop"):
+            return st
+        if isinstance(a, ast.Assign):
+            self.check_expr(nd, a.value, st)
+            for t in a.targets:
+                if isinstance(t, (ast.Subscript, ast.Attribute)):
+                    self.check_expr(nd, t.value, st)
+            saved = self.out
+            self.out = cur = []
+            res = self.assign(st, a.targets, a.value)
+            self.out = saved
+            self.pending[(nd.id, -1)] = cur
+            return res
+        if isinstance(a, ast.AugAssign):
+            self.check_expr(nd, a.value, st)
+            s = st.copy()
+            if isinstance(a.target, ast.Name):
+                self.kill_root(s, a.target.id)
+            return s
+        if isinstance(a, (ast.Return, ast.Expr)):
+            v = a.value
+            self.check_expr(nd, v, st)
+            s = st
+            # in-place mutation of a local container
+            if isinstance(v, ast.Call) and isinstance(v.func, ast.Attribute) and v.func.attr in ("pop", "append", "remove", "insert", "extend", "add", "discard", "clear", "sort", "reverse"):
+                base = v.func.value
+                if v.func.attr == "append" and v.args and (
+                        (isinstance(base, ast.Subscript) and isinstance(base.value, ast.Name)) or
+                        (isinstance(base, ast.Call) and isinstance(base.func, ast.Attribute) and base.func.attr == "setdefault" and isinstance(base.func.value, ast.Name))):
+                    dname = base.value.id if isinstance(base, ast.Subscript) else base.func.value.id
+                    s = st.copy()
+                    p = self.path(v.args[0], st)
+                    k = self.kind_of(p, st) if p is not None else None
+                    key = dname + "{}"
+                    cur = s.elem.get(key)
+                    if k is not None and cur is not None:
+                        s.elem[key] = cur | k
+                    else:
+                        s.elem.pop(key, None)
+                    return s
+                if isinstance(base, ast.Name):
+                    s = st.copy()
+                    if v.func.attr in ("add", "append") and v.args:
+                        # container filled under a guard: remember the universal element fact when every insertion agrees
+                        p = self.path(v.args[0], st)
+                        k = self.kind_of(p, st) if p is not None else None
+                        cur = s.elem.get(base.id)
+                        if k is not None and cur is not None:
+                            s.elem[base.id] = cur | k
+                        else:
+                            s.elem.pop(base.id, None)
+                        for dn in (s.kind, s.ops, s.lens):
+                            for q in [q for q in dn if q.startswith(base.id + "[")]:
+                                del dn[q]
+                    else:
+                        self.kill_root(s, base.id)
+            return s
+        if isinstance(a, ast.Delete):
+            s = st.copy()
+            for t in a.targets:
+                base = t
+                while isinstance(base, (ast.Subscript, ast.Attribute)):
+                    base = base.value
+                if isinstance(base, ast.Name):
+                    self.kill_root(s, base.id)
+            return s
+        if isinstance(a, (ast.Assert,)):
+            self.check_expr(nd, a.test, st)
+            return self.refine(st, a.test, True)
+        if isinstance(a, ast.Raise):
+            self.check_expr(nd, a.exc, st)
+            return st
+        return st
+
+    def edge(self, nd, label, st):
+        if st is None:
+            return None
+        if nd.kind == "test" and label in (True, False):
+            return self.refine(st, nd.ast, label)
+        return st
+
+    def check_expr(self, nd, e, st):
+        if e is None:
+            return
+        if (nd.id, id(e)) in self.seen:
+            # re-visits during the fix point overwrite earlier verdicts of the same read
+            pass
+        self._cur = []
+        saved = self.out
+        self.out = self._cur
+        self.visit(e, st)
+        self.out = saved
+        self.pending[(nd.id, id(e))] = self._cur
+
+    def check_node(self, nd, st):
+        self.check_expr(nd, nd.ast, st)
+
+    def special_pop(self, st, nd):
+        return st
+
+    def run(self):
+        cfg = CFG(self.fn)
+        self.pending = {}
+        init = St()
+        if self.exprp:
+            init.kind[self.exprp] = frozenset([self.kcls])
+        IN, OUT = cfg.forward(init, self.flow, join, self.edge)
+        # the verdicts computed at the fix point are those of the last visit of each node
+        final = {}
+        for nid in IN:
+            nd = cfg.nodes[nid]
+            self.pending = {}
+            self.flow(nd, IN[nid])
+            for k, v in self.pending.items():
+                final[k] = v
+        res = []
+        for k in sorted(final, key=lambda x: x[0]):
+            res.extend(final[k])
+        return res
 
 
 def check_function(repo, mod, fn, kcls):
-    return []
+    from .dispatch import tok_consts
+    consts = tok_consts(repo)
+    an = Analysis(repo, mod, fn, kcls, consts)
+    res = an.run()
+    # one verdict per (read, site): a read is discharged only if every visit of it was
+    merged = {}
+    for (key, ok, where, detail) in res:
+        k = (key, where)
+        if k not in merged:
+            merged[k] = [ok, detail]
+        else:
+            merged[k][0] = merged[k][0] and ok
+            if not ok:
+                merged[k][1] = detail
+    return [(key, v[0], where, v[1]) for (key, where), v in sorted(merged.items())]
